@@ -2183,6 +2183,11 @@ func TestVerifC13Deployed(t *testing.T) {
 	root := vf.NewRand(vf.Seed())
 	n := vf.N(300)
 
+	// sentinel: is the candidate repair of C13-F10 (fixes/C13-F10.diff: the query of X-Forwarded-Uri as sent)
+	// in the tree under test?
+	fixedF10 := c13TPObserve(behind, "GET /decisions HTTP/1.1\r\nHost: heimdall.internal\r\nX-Forwarded-Method: GET\r\nX-Forwarded-Proto: https"+
+		"\r\nX-Forwarded-Host: a.example.com\r\nX-Forwarded-Uri: /t/abc?b=2&a=1\r\n\r\n", "10.0.0.1", false).Query == "b=2&a=1"
+
 	type tpCase struct {
 		Req c13Req `json:"req"`
 	}
@@ -2245,6 +2250,6 @@ func TestVerifC13Deployed(t *testing.T) {
 		}
 
 		w.Put(vf.Obs{I: i, Stream: "deployed", In: tpCase{q}, Out: map[string]c13TPObs{"direct": od, "trusted_proxy": ot},
-			Coq: vf.CoqApp("tcs", lreq, od.coq(), ot.coq()), Nontrivial: q.Query != "", Tags: tags})
+			Coq: vf.CoqApp("tcs", vf.CoqBool(fixedF10), lreq, od.coq(), ot.coq()), Nontrivial: q.Query != "", Tags: tags})
 	}
 }
